@@ -81,7 +81,10 @@ Clauses(ln, pv, first, xs) ==
       rec == Rec(ln)
       qv(f) == HasQ(ln, f) => ln.q[f] = 0
   IN
-  << <<"Returns", pre => ok>>,
+  << \* a method that is handed a sound record must carry the call out
+     <<"Returns", (pre /\ ev \in RecordEvents) => ok>>,
+     \* exceptions of methods without record argument are outside the statement: noted, not judged
+     <<"NOTE:Rejected", ev \in RecordEvents \/ ok>>,
      <<"RecordInRange", (pre /\ ok) => RecordInRange(rec, ln.L)>>,
      <<"RecordSound",   (pre /\ ok) => RecordSound(rec, ln.isoL, ln.isoR, ln.L)>>,
      <<"FlagSound",     (preF /\ ok) => FlagSoundObs(ln.flags)>>,
